@@ -9,6 +9,11 @@ package synct
 //	cancel r<j>           the client cancels RPC j
 //	finish r<j> <code>    handler j returns status <code> (0 = OK)
 //	gstop | stop          call GracefulStop / Stop on a goroutine
+//	rawdial p<i>          a hand-written HTTP/2 client connection i: it acks SETTINGS and PINGs but IGNORES
+//	                      GOAWAY and the MAX_CONCURRENT_STREAMS setting (a peer that does not cooperate, or
+//	                      whose frames cross the server's on the wire)
+//	rawstart p<i> r<j>    that peer opens a new stream for RPC j (HEADERS only); its result is the
+//	                      grpc-status of the trailers, RST (RST_STREAM) or EOF (connection closed)
 //
 // After every op the bubble is settled and the whole observable state is printed:
 //
@@ -24,6 +29,11 @@ import (
 	"sync/atomic"
 	"time"
 
+	"bytes"
+	"io"
+
+	"golang.org/x/net/http2"
+	"golang.org/x/net/http2/hpack"
 	"google.golang.org/grpc"
 	"google.golang.org/grpc/codes"
 	"google.golang.org/grpc/credentials/insecure"
@@ -39,7 +49,90 @@ type ssRPC struct {
 	hctx   context.Context // the handler's context (nil until the handler was entered)
 }
 
+// ssRaw is a raw HTTP/2 client connection that ignores GOAWAY.
+type ssRaw struct {
+	conn   net.Conn
+	wmu    sync.Mutex
+	fr     *http2.Framer
+	henc   *hpack.Encoder
+	hbuf   bytes.Buffer
+	nextID uint32
+	open   map[uint32]string // stream id -> rpc id, streams without a result
+	done   chan struct{}
+}
+
+func (s *serverstopH) rawResult(id, res string) {
+	s.mu.Lock()
+	if _, ok := s.cli[id]; !ok {
+		s.cli[id] = res
+	}
+	s.mu.Unlock()
+}
+
+func (s *serverstopH) rawRead(r *ssRaw) {
+	defer close(r.done)
+	dec := hpack.NewDecoder(4096, nil)
+	for {
+		f, err := r.fr.ReadFrame()
+		if err != nil {
+			r.wmu.Lock()
+			for _, id := range r.open {
+				s.rawResult(id, "EOF")
+			}
+			r.open = map[uint32]string{}
+			r.wmu.Unlock()
+			return
+		}
+		switch f := f.(type) {
+		case *http2.SettingsFrame:
+			if !f.IsAck() {
+				r.wmu.Lock()
+				r.fr.WriteSettingsAck()
+				r.wmu.Unlock()
+			}
+		case *http2.PingFrame:
+			if !f.IsAck() {
+				r.wmu.Lock()
+				r.fr.WritePing(true, f.Data)
+				r.wmu.Unlock()
+			}
+		case *http2.HeadersFrame:
+			hs, err := dec.DecodeFull(f.HeaderBlockFragment())
+			if err != nil || !f.StreamEnded() {
+				continue
+			}
+			st := "?"
+			for _, h := range hs {
+				if h.Name == "grpc-status" {
+					var c int
+					fmt.Sscan(h.Value, &c)
+					st = ssCode(status.Error(codes.Code(c), ""))
+					if c == 0 {
+						st = "OK"
+					}
+				}
+			}
+			r.wmu.Lock()
+			id, ok := r.open[f.StreamID]
+			delete(r.open, f.StreamID)
+			r.wmu.Unlock()
+			if ok {
+				s.rawResult(id, st)
+			}
+		case *http2.RSTStreamFrame:
+			r.wmu.Lock()
+			id, ok := r.open[f.StreamID]
+			delete(r.open, f.StreamID)
+			r.wmu.Unlock()
+			if ok {
+				s.rawResult(id, "RST")
+			}
+		}
+	}
+}
+
 type serverstopH struct {
+	raws    map[string]*ssRaw
 	mu      sync.Mutex
 	srv     *grpc.Server
 	lis     *bufconn.Listener
@@ -80,7 +173,7 @@ func init() {
 		}
 	}()
 	register("s_serverstop", func() SHandler {
-		return &serverstopH{conns: map[string]*grpc.ClientConn{}, rpcs: map[string]*ssRPC{}, cli: map[string]string{}, stop: "none"}
+		return &serverstopH{raws: map[string]*ssRaw{}, conns: map[string]*grpc.ClientConn{}, rpcs: map[string]*ssRPC{}, cli: map[string]string{}, stop: "none"}
 	})
 }
 
@@ -202,6 +295,47 @@ func (s *serverstopH) Op(f []string) string {
 			s.cli[r.id] = ssCode(err)
 			s.mu.Unlock()
 		}()
+	case f[0] == "rawdial" && len(f) == 2 && s.srv != nil:
+		conn, err := s.lis.DialContext(context.Background())
+		if err != nil {
+			s.raws[f[1]] = nil
+			break
+		}
+		r := &ssRaw{conn: conn, nextID: 1, open: map[uint32]string{}, done: make(chan struct{})}
+		io.WriteString(conn, http2.ClientPreface)
+		r.fr = http2.NewFramer(conn, conn)
+		r.fr.SetMaxReadFrameSize(1 << 20)
+		r.henc = hpack.NewEncoder(&r.hbuf)
+		r.fr.WriteSettings()
+		s.raws[f[1]] = r
+		go s.rawRead(r)
+	case f[0] == "rawstart" && len(f) == 3:
+		r, ok := s.raws[f[1]]
+		if !ok {
+			return "bad-op"
+		}
+		s.rpc(f[2])
+		if r == nil {
+			s.rawResult(f[2], "EOF")
+			break
+		}
+		r.wmu.Lock()
+		id := r.nextID
+		r.nextID += 2
+		r.open[id] = f[2]
+		r.hbuf.Reset()
+		for _, kv := range [][2]string{{":method", "POST"}, {":scheme", "http"}, {":path", "/s/" + f[2]}, {":authority", "verif.test"},
+			{"content-type", "application/grpc"}, {"te", "trailers"}} {
+			r.henc.WriteField(hpack.HeaderField{Name: kv[0], Value: kv[1]})
+		}
+		err := r.fr.WriteHeaders(http2.HeadersFrameParam{StreamID: id, BlockFragment: r.hbuf.Bytes(), EndHeaders: true})
+		if err != nil {
+			delete(r.open, id)
+		}
+		r.wmu.Unlock()
+		if err != nil {
+			s.rawResult(f[2], "EOF")
+		}
 	case f[0] == "cancel" && len(f) == 2 && s.rpcs[f[1]] != nil && s.rpcs[f[1]].cancel != nil:
 		s.rpcs[f[1]].cancel()
 	case f[0] == "finish" && len(f) == 3 && s.rpcs[f[1]] != nil:
@@ -232,6 +366,12 @@ func (s *serverstopH) Op(f []string) string {
 		return "bad-op"
 	}
 	settle()
+	if len(s.raws) > 0 {
+		// a peer that ignores GOAWAY does not close its side: the server closes such a connection
+		// one (virtual) second after its writer finished
+		time.Sleep(1500 * time.Millisecond)
+		settle()
+	}
 	return s.show()
 }
 
@@ -280,6 +420,12 @@ func (s *serverstopH) Close() {
 	settle()
 	for _, cc := range s.conns {
 		cc.Close()
+	}
+	for _, r := range s.raws {
+		if r != nil {
+			r.conn.Close()
+			<-r.done
+		}
 	}
 	if s.srv != nil {
 		s.srv.Stop()
